@@ -66,6 +66,6 @@ Variant(j) ==
                                            dash_offset |-> Offsets[((h \div 23) % Len(Offsets)) + 1]]
                ELSE style0
   IN [id |-> ToString(<<"gk", FAMILY, hs, j>>), fam |-> "stroke", kind |-> "stroke", w |-> SIZE, h |-> SIZE, den |-> 1,
-      ops |-> AllOps(subs, 1, h), style |-> style, ctm |-> tr, want_dash_path |-> (DASH = 1)]
+      ops |-> AllOps(subs, 1, h), style |-> style, ctm |-> tr, want_dash_path |-> (DASH = 1), k |-> FAMILY]
 Emit == Done => \A j \in 0..(NVAR - 1) : PrintT(ToJson(Variant(j)))
 =============================================================================
